@@ -35,9 +35,16 @@ Proved here (about the model `Model/TextReader.lean`):
 * `C07_full_only_if_unfit`, `C07_stream_eq_slice_fits`: with `need data ≤ cap` (the decidable fit predicate) the run
   never ends in `BufferFull`, hence streamed = from-slice for every capacity that fits.
 
-Not proved (decided by the correspondence run + implementation oracle only), statement kept at the end:
-* `C07_unfit_is_full`: the converse, a buffer smaller than `need` always ends in `BufferFull` (proved for unfit tokens:
-  `C07_unfit_is_full_partial`).
+* `C07_unfit_is_full`, `C07_buffer_full_iff`: the converse — a buffer smaller than `need` ends in `BufferFull` under every
+  fault-free schedule —, hence `BufferFull ↔ cap < need data`.
+
+What ties `need` to something outside the model: `Spec.need` and `Spec.specStep` are DEFINED through the model's own scanner
+`fbLoop` (the scan of every prefix of the remaining input).  `BufferFull ↔ cap < need` therefore relates two runs of the
+model — the streaming reader under an arbitrary schedule and capacity against the one-shot scan of prefixes —; it does not
+by itself say that `need` is "the longest token plus look-ahead".  The model-free tie is the harness op `tneed`: an
+independent byte-at-a-time lexer (`ref_lex(..).need`: comment length + 1, unquoted length + 1, quoted content + 1, `@[…]`
+length, 2 for an operator, up to 3 for a leading `0xEF`) is compared with the model's `need` on every generated input, and the
+real code is run at `cap = need` and `cap = need − 1` (oracles `full-although-fits`, `need-not-tight`).
 -/
 namespace Jomini.Props.C07
 open Jomini Jomini.TextReader Jomini.TextReader.Spec Jomini.TextReader.Swar
@@ -332,9 +339,10 @@ input: the largest, over every token / comment / blank run of `data`, of the byt
 (read sizes ≥ 1; fault steps allowed).  Contrapositive: `BufferFull` occurs only when some token or comment, with the
 look-ahead byte it needs, does not fit the buffer.
 
-(The converse — a buffer smaller than `need` always yields `BufferFull` — is not proved; on the real code the op `tneed`
-checks it for `cap = need − 1`, oracle `need-not-tight`, and the same op ties the model's `need` to the harness's
-independent byte-at-a-time computation.) -/
+(The converse — a buffer smaller than `need` always yields `BufferFull` — is `C07_unfit_is_full` below; together:
+`C07_buffer_full_iff`.  `need` is defined through the model's own scanner, see the note at the head of this file: the
+description "comment length + 1, …" is what the harness's independent byte-at-a-time computation implements, and the op
+`tneed` compares the two on every generated input and runs the real code at `cap = need` and `cap = need − 1`.) -/
 theorem C07_full_only_if_unfit (data : Bytes) (cap : Nat) (sched : List Step) (hw : WfSched sched)
     (hfit : need data ≤ cap) : (streamTokens cap sched data).out ≠ .err .full := by
   have hcap : 0 < cap := by unfold need at hfit; omega
@@ -402,6 +410,23 @@ theorem C07_stream_faithful (ms : DMembers) (gt : Bytes) (bom : Bool) (cap : Nat
   obtain ⟨e1, e2, e3⟩ := C07_stream_eq_slice_fits _ cap sched hw hnf hfit
   refine ⟨e1.trans s1, e2.trans s2, ?_⟩
   exact (e3 (e2.trans s2)).1
+
+-- the hypotheses of `C07_slice_faithful` are satisfiable on a non-trivial document: `a = { "x y" 1 } # c\n b>=2`
+example :
+    let doc : DMembers :=
+      .field [] false [97] [32] .eq (.cont [32] (.elem (.scal [32] true [120, 32, 121]) (.elem (.scal [32] false [49]) .nil)) [32])
+        (.field [32, 35, 32, 99, 10, 32] false [98] [] .ge (.scal [] false [50]) .nil)
+    ValidM doc [10] ∧ EndGap [10] := by
+  have sp : Gap [32] := .ws 32 [] (by decide) .nil
+  have g1 : Gap [32, 35, 32, 99, 10, 32] := .ws 32 _ (by decide) (.comment [32, 99] [32] (by decide) sp)
+  refine ⟨?_, .gap _ (.ws 10 [] (by decide) .nil)⟩
+  simp only [ValidM, ValidV, Lexeme.Valid, renderV, renderM, Lexeme.text, opText, StartsBoundary]
+  refine ⟨.nil, sp, ⟨by decide, ⟨97, [], rfl, by decide, by decide, by decide, by decide⟩, Or.inr ⟨32, _, rfl, by decide⟩⟩,
+    fun _ => ⟨32, _, rfl, by decide⟩, ⟨sp, sp, ⟨sp, by decide +kernel⟩,
+      ⟨sp, by decide, ⟨49, [], rfl, by decide, by decide, by decide, by decide⟩, Or.inr ⟨32, _, rfl, by decide⟩⟩, trivial⟩,
+    g1, .nil, ⟨by decide, ⟨98, [], rfl, by decide, by decide, by decide, by decide⟩, Or.inr ⟨62, _, rfl, by decide⟩⟩,
+    fun h => by simp at h, ⟨.nil, by decide, ⟨50, [], rfl, by decide, by decide, by decide, by decide⟩, Or.inr ⟨10, _, rfl, by decide⟩⟩,
+    trivial⟩
 
 -- `a = { "x y" 1 } # c\n b>=2` : a field whose value is a container with two elements, then a field with `>=`
 example :
